@@ -294,6 +294,20 @@ pub fn kb_attacks(r: &mut Rng, h: &Honest, other: Option<&Honest>, edits: usize,
         l.insert(r.below(ds.len() + 1), forged);
         out.push(b.with_parts("replay-one-more-forged-disclosure", jwt, l));
     }
+    // an EMPTY entry added to the disclosure sequence (compact: a doubled `~`; JSON: an empty string): the sequence presented is
+    // no longer the one the KB-JWT's sd_hash covers
+    for (name, at) in [("front", 0usize), ("back", ds.len()), ("middle", ds.len() / 2)] {
+        let mut l = ds.clone();
+        l.insert(at.min(l.len()), String::new());
+        out.push(b.with_parts(&format!("replay-empty-entry-added-{}", name), jwt, l));
+    }
+    {
+        let mut l = ds.clone();
+        l.insert(0, String::new());
+        l.push(String::new());
+        l.push(String::new());
+        out.push(b.with_parts("replay-several-empty-entries-added", jwt, l));
+    }
     if !ds.is_empty() {
         let mut l = ds.clone();
         l.remove(r.below(ds.len()));
